@@ -56,6 +56,7 @@ type Result struct {
 	OkPaths       int64             `json:"ok_paths"`
 	Infeasible    int64             `json:"infeasible_paths"`
 	Violations    []PathRecord      `json:"violations"`
+	ViolatingPaths int64            `json:"violating_paths"`
 	Inconclusive  []PathRecord      `json:"inconclusive"`
 	Samples       []PathRecord      `json:"samples"`
 	Reached       map[string]int64  `json:"reached"`
@@ -100,6 +101,7 @@ type Engine struct {
 	reflectPackage *ssa.Package
 
 	res       Result
+	violKeys  map[string]int
 	funcs     map[string]string
 	models    map[string]bool
 	oblN      int64
@@ -293,7 +295,13 @@ func (e *Engine) finish(rec PathRecord, ps *pathState) {
 		e.res.Infeasible++
 	case "stopped":
 	case "assert", "panic":
-		if len(e.res.Violations) < e.cfg.MaxViolations {
+		e.res.ViolatingPaths++
+		key := rec.Outcome + "|" + rec.Msg + "|" + firstFrame(rec.Where)
+		if e.violKeys == nil {
+			e.violKeys = map[string]int{}
+		}
+		e.violKeys[key]++
+		if e.violKeys[key] <= 3 && len(e.violKeys) <= 200 && len(e.res.Violations) < e.cfg.MaxViolations*10 {
 			e.res.Violations = append(e.res.Violations, rec)
 		}
 	default:
@@ -463,4 +471,19 @@ func (i *interpreter) freezeReachable(v value) {
 		}
 	}
 	walk(v)
+}
+
+func firstFrame(where string) string {
+	if i := strings.Index(where, " <- "); i >= 0 {
+		// skip the intrinsic frame itself
+		rest := where[i+4:]
+		if strings.Contains(where[:i], ".vAssert") || strings.Contains(where[:i], ".vUnreachable") {
+			if j := strings.Index(rest, " <- "); j >= 0 {
+				return rest[:j]
+			}
+			return rest
+		}
+		return where[:i]
+	}
+	return where
 }
